@@ -129,7 +129,8 @@ def replay(prop, obl, model, tier):
     script = os.path.join(ROOT, "replay", prop + ".py")
     if not os.path.exists(script):
         return {"reproduced": False, "detail": "no replay driver for this property"}
-    req = {"obligation": obl.name, "kind": obl.kind, "line": obl.line, "info": obl.info, "model": model, "tier": tier}
+    req = {"obligation": obl.name, "kind": obl.kind, "line": obl.line, "info": obl.info, "model": model, "tier": tier,
+           "known": [k.get("witness_class") for k in known_findings(prop) if k.get("witness_class")]}
     env = dict(os.environ, PYTHONPATH=REPO, BRZ_HOME="/tmp", BRZ_EMAIL="verif <verif@example.com>")
     try:
         p = subprocess.run([VENV_PY, script], input=json.dumps(req), capture_output=True, text=True, timeout=300, env=env, cwd=ROOT)
@@ -316,7 +317,9 @@ def main(argv=None):
                 faults.append("solver disagreement on %s: %s vs %s" % (o.name, r["result"], c))
     # mutants
     mut_report = None
-    if not a.no_mutants and not failed and not unknown and not faults:
+    known_now = known_findings(prop)
+    failed_unknown_to_us = [o for o, r in failed if not any(re.search(k["obligation"], o.name) for k in known_now)]
+    if not a.no_mutants and not failed_unknown_to_us and not unknown and not faults:
         try:
             mut_report = MU.run_mutants(spec, engines, tier, budget, seed)
         except (EngineError, SpecDrift) as ex:
@@ -398,8 +401,9 @@ def main(argv=None):
         trusted.append("calls without a contract (fresh result, may raise, havoc self/mutable args, assumed not to touch ghost state): " + ", ".join(opaque)[:1500])
     trusted.append("fold axioms Sum/All over concatenation (definitional), z3/cvc5 soundness, pyvc encoding of Python (DESIGN 2.8)")
     trusted += ["assumption: " + x for x in spec.assumptions]
-    n_ob = len(proof)
-    n_dis = len([1 for o, r in proof if r["result"] == "unsat"]) + len(known_hits)
+    # obligations that fail because of a recorded known finding are reported separately, not counted as discharged
+    n_ob = len(proof) - len(known_hits)
+    n_dis = len([1 for o, r in proof if r["result"] == "unsat"])
     samples = []
     for o, r in proof[:3]:
         samples.append({"obligation": o.name, "result": r["result"], "backend": r["backend"], "smt2_head": r["smt2"][:1200]})
